@@ -3,6 +3,7 @@ package c12
 import (
 	"context"
 	"fmt"
+	"os"
 	"io"
 	"net"
 	"sync"
@@ -42,11 +43,23 @@ type sink struct {
 	udp   *net.UDPConn
 	conns atomic.Int64
 	dgs   atomic.Int64
+	mu    sync.Mutex
+	seen  map[string]bool // payloads of the datagrams that arrived
+}
+
+// got reports whether a datagram with this payload has arrived: cases share
+// the listeners, and a datagram of an earlier case that arrives late must not
+// be taken for one of the current case.
+func (s *sink) got(token string) bool {
+	s.mu.Lock()
+	defer s.mu.Unlock()
+	return s.seen[token]
 }
 
 var (
 	sinksOnce sync.Once
 	sinks     []*sink
+	probeSeq  atomic.Int64
 )
 
 // hostAddrs finds a private and a public (non-loopback, non-private) address of this host.
@@ -107,9 +120,19 @@ func startSinks() {
 				go func() {
 					buf := make([]byte, 2048)
 					for {
-						if _, _, err := u.ReadFromUDP(buf); err != nil {
+						n, _, err := u.ReadFromUDP(buf)
+						if err != nil {
 							return
 						}
+						s.mu.Lock()
+						if s.seen == nil {
+							s.seen = map[string]bool{}
+						}
+						if len(s.seen) > 100000 {
+							s.seen = map[string]bool{}
+						}
+						s.seen[string(buf[:n])] = true
+						s.mu.Unlock()
 						s.dgs.Add(1)
 					}
 				}()
@@ -228,7 +251,7 @@ func propE2E(c E2ECase) (o pbt.Outcome) {
 		return
 	}
 	defer conn.Close()
-	conns0, dgs0 := s.conns.Load(), s.dgs.Load()
+	conns0 := s.conns.Load()
 	readReply := func() ([]byte, error) {
 		conn.SetReadDeadline(time.Now().Add(5 * time.Second))
 		head := make([]byte, 4)
@@ -287,9 +310,8 @@ func propE2E(c E2ECase) (o pbt.Outcome) {
 		if mayReach && !c.AssocDS {
 			o.Failf("wrongly-refused", "UDP ASSOCIATE 0.0.0.0:0 of user %q was refused: %v %v", c.User, rep, rerr)
 		}
-		if s.dgs.Load() > dgs0 {
-			o.Failf("relay/after-refusal", "a datagram reached %s although the association was refused", s.name)
-		}
+		// (nothing was sent in this case: a datagram arriving at the shared
+		// listener now can only belong to an earlier case)
 		return
 	}
 	relayPort := int(rep[len(rep)-2])<<8 | int(rep[len(rep)-1])
@@ -310,7 +332,8 @@ func propE2E(c E2ECase) (o pbt.Outcome) {
 			time.Sleep(20 * time.Millisecond)
 		}
 	}
-	dg := append(append([]byte{0, 0, 0}, d.raw()...), []byte("probe")...)
+	token := fmt.Sprintf("probe-%d-%d", os.Getpid(), probeSeq.Add(1))
+	dg := append(append([]byte{0, 0, 0}, d.raw()...), []byte(token)...)
 	var cliUDP *net.UDPConn
 	if c.Dgram {
 		// RFC 1928 mode: the client sends the datagram to the relay port itself
@@ -337,11 +360,11 @@ func propE2E(c E2ECase) (o pbt.Outcome) {
 	}
 	time.Sleep(40 * time.Millisecond)
 	if mayReach {
-		for end := time.Now().Add(time.Second); s.dgs.Load() == dgs0 && time.Now().Before(end); {
+		for end := time.Now().Add(time.Second); !s.got(token) && time.Now().Before(end); {
 			time.Sleep(2 * time.Millisecond)
 		}
 	}
-	got := s.dgs.Load() > dgs0
+	got := s.got(token)
 	if !mayReach && got {
 		o.Failf(fmt.Sprintf("udp-relay/form-%d", form), "user %q has no grant for class %d, yet a datagram relayed through its UDP association reached the local listener %s (header %+v)", c.User, class, s.name, d)
 		return
